@@ -73,7 +73,7 @@ theorem eq_of_name_eq (input : List Scaffold) (hn : (input.map (·.name)).Nodup)
 theorem isPresent_iff (pieces : List Piece) (sc : Scaffold) :
     isPresent pieces sc = true ↔ ∃ p ∈ pieces, p.sc.name = sc.name := by
   unfold isPresent
-  simp [List.contains_iff_mem]
+  simp
 
 /-- **N3.** `remap_to_input_assembly` on an unedited map returns a build with: one stored result per Pretext scaffold
     holding exactly the rows of its input scaffold, named like the input scaffold, rank 3, no tag, no haplotype;
